@@ -222,7 +222,11 @@ class Check:
         from .restructure import restructured
         kept = []
         for v, k in unlisted:
-            why = restructured(self.repo, v.function)
+            # positive evidence (a defect pattern that is there, as opposed
+            # to an expected construct that was not found) is believed in
+            # any code
+            why = '' if v.extra.get('positive') else restructured(
+                self.repo, v.function)
             if why:
                 self.floor_errors.append(
                     '%s undecided in %s (%s): would have reported "%s"' % (
